@@ -101,6 +101,22 @@ prop('C10', 'proof',
      'sanitizers see only the explored sessions; uninitialised reads only where UBSan/ASan can see them (no MSan); ' + TIE,
      'Lean 4 bound theorems + sanitizer runs on boundary sessions', '§6 C10')
 
+prop('C12', 'proof',
+     'theorems about the KPK table the build produced (Props/C12.lean; certificate checking in the Lean kernel, see DESIGN §6 C12 for the part discharged) and an EXHAUSTIVE correspondence: all 662,704 '
+     'legal KPK positions (both pawn colours, both sides to move, all files) through the real evaluation path vs the model (normalize/index/bit of the re-extracted table) vs an independent rules-level '
+     'retrograde solver', '"safe promotion (Q or R, not capturable, not stalemating) is a win" is taken from chess theory; ' + TIE,
+     'Lean 4 certificate theorems + exhaustive enumeration against an independent solver', '§6 C12')
+prop('C13', 'proof',
+     'the evaluator (score.cpp + endgame.cpp, ~600 lines) transcribed into Lean with its explicit per-colour choices; mirror-law theorems in Props/C13.lean (see DESIGN §6 C13 for the part proved); '
+     'correspondence: model vs C++ on every evaluation of corpus/lab/game positions and random placements of every specialised endgame class, and the symmetry property evaluated directly on the C++ '
+     'for every position and its mirror', 'Spec.wf positions with sufficient material; evaluation constants are hand-copied into the model (a change shows up as a disagreement); ' + TIE,
+     'Lean 4 theorems over a transcribed evaluator + direct mirror test on the implementation', '§6 C13')
+prop('C14', 'proof',
+     'C14_cache_transparent proved in Lean for every sequence of evaluate/clear operations on the modelled pawn-key HashMap (slot = key mod 2^18, probe/insert/clear as in hashmap.h), generic in the pawn '
+     'scoring function, under pawn-key injectivity; the bound |eval| < VALUE_MATE - MAX_DEPTH is explored. Correspondence: warm (session) vs fresh evaluators on the C++ itself in random interleavings with '
+     'clears, pawnless positions after a clear, structures searched to collide in chosen cache slots, sibling positions, extreme material; model vs C++ on every value',
+     'no 64-bit pawn-key collision within a session; ' + TIE, 'Lean 4 invariant proof over the cache model + warm-vs-fresh differential on the implementation', '§6 C14')
+
 PENDING = {
     'C05': 'search trace acceptor not built yet (in progress, DESIGN §6 C05)',
     'C06': 'handshake model and schedule hooks not built yet (in progress, DESIGN §6 C06)',
